@@ -5,7 +5,7 @@ UGRID specific generators and describers for property C10.
 * `variant(recipe, **kw)`      dataset variants that `datasets.build_ugrid` does not offer:
                                netCDF round trip (integer `_FillValue` ends up in `.encoding`,
                                values are float with NaN), edge dimension declared but absent,
-                               malformed inputs
+                               malformed inputs (incl. single cells of a supplied table overwritten)
 * `describe(ds)`               the `topo` protocol line of a dataset: everything
                                `Mesh2DTopology` can look at, taken from the dataset handed to
                                emsarray (never from emsarray itself)
@@ -158,6 +158,22 @@ def build(recipe: dict) -> G.Built:
         v = ds[VARNAME[key]]
         second = [d for d in v.dims if d not in (names['face_dim'], names['edge_dim'])][0]
         ds[VARNAME[key]] = v.rename({second: 'other_' + second})
+    for key, edits in opt.get('corrupt', {}).items():
+        # single cells of a supplied table overwritten: [row, column, value | None (missing)] in terms of the
+        # normalised table (primary dimension first, zero-based); the table no longer describes the mesh
+        v = ds[VARNAME[key]]
+        data = v.values.copy()
+        flipped = v.dims[0] not in (names['face_dim'], names['edge_dim'])
+        start = int(v.attrs.get('start_index', 0))
+        for r, c, val in edits:
+            idx = (c, r) if flipped else (r, c)
+            if val is None:
+                data[idx] = np.nan if np.issubdtype(data.dtype, np.floating) else v.attrs['_FillValue']
+            else:
+                data[idx] = val + start
+        attrs, enc = dict(v.attrs), dict(v.encoding)
+        ds[VARNAME[key]] = (v.dims, data)
+        ds[VARNAME[key]].attrs, ds[VARNAME[key]].encoding = attrs, enc
     for key in opt.get('dangling_attr', []):
         ds['Mesh2'].attrs[key + '_connectivity'] = 'no_such_variable'
     if 'enc_fill' in opt:
